@@ -326,6 +326,50 @@ def rule_one_relation(ctx, roots, helpers, equal, N, rid="R8.1"):
 _EXACT_SCALARS = ("str", "int", "float", "type(None)", "NoneType")
 
 
+_PRED_CACHE = {}
+
+
+def _holds_only_for_plain_scalars(prog, pred):
+    """Is `pred` a package function that answers True for no value the normaliser would change or look into -- no bool, no list, no
+    dict, no instance of a subclass of those -- and True for at least the exact str / int / float / None?  Evaluated by sa/tokeval.py."""
+    from ..prog import Func
+    if not isinstance(pred, Func) or len(pred.params) != 1:
+        return False
+    if pred.qual in _PRED_CACHE:
+        return _PRED_CACHE[pred.qual]
+    from ..tokeval import Ev, Undecided, PyRaise
+    from collections import OrderedDict
+
+    class _L(list):
+        pass
+
+    class _D(dict):
+        pass
+
+    class _I(int):
+        pass
+
+    class _S(str):
+        pass
+    never = [True, False, [], {}, [True], {"a": False}, _L(), _D(), OrderedDict(), (), (True,), _L([1])]
+    always = ["", "s", 0, 1, -7, 10 ** 30, 0.0, 1.5, None]
+    ok = True
+    try:
+        for v in never:
+            if Ev(prog, fuel=3000).call_func(pred, [v], {}):
+                ok = False
+        for v in always:
+            if not Ev(prog, fuel=3000).call_func(pred, [v], {}):
+                ok = False
+        # subclasses of the scalars may be let through or not: a str/int subclass instance is still no boolean and no container
+        for v in (_I(3), _S("x")):
+            Ev(prog, fuel=3000).call_func(pred, [v], {})
+    except (Undecided, PyRaise, RecursionError):
+        ok = False
+    _PRED_CACHE[pred.qual] = ok
+    return ok
+
+
 def _type_guarded(C, cmp, ops, cs, parents):
     """`a == b` sits in the true branch of a test that pins the un-normalised operands to exact scalar types (`type(a) is str`,
     also `isinstance(a, str)`: no string is a boolean or a container), the names not rebound in between.  The normaliser
@@ -360,6 +404,11 @@ def _type_facts(test, facts, C, at):
             nm, ty = t.left.args[0].id, norm(t.comparators[0])
         elif isinstance(t, ast.Call) and norm(t.func) == "isinstance" and len(t.args) == 2 and isinstance(t.args[0], ast.Name) and norm(t.args[1]) == "str":
             nm, ty = t.args[0].id, "str"
+        if nm is None and isinstance(t, ast.Call) and isinstance(t.func, ast.Name) and len(t.args) == 1 and isinstance(t.args[0], ast.Name) and not t.keywords:
+            # a package predicate that holds only for exact plain scalars (`_is_plain_scalar(x)`): decided by evaluating it
+            pred = C.prog.resolve_name(C.f.mod, t.func.id, C.f)
+            if _holds_only_for_plain_scalars(C.prog, pred):
+                nm, ty = t.args[0].id, "int"
         if nm is None or ty not in _EXACT_SCALARS:
             continue
         # same binding at the test and at the comparison
